@@ -169,6 +169,7 @@ _G_LOOP1 = _v2p("^VerifC07_(loop|main)$", dict(n=[1], J=[1], B=[1], K=[1]), dict
 _G_PROMPT = _v2p("^VerifC07_prompt$", dict(n=[1, 2, 3], B=[2]), dict(n=[1, 2, 3, 4], B=[3]))
 _G_NEW = _v2p("^VerifC15_(new|safeDivide)$", dict(n=[1, 2, 3]), dict(n=[1, 2, 3, 4]))
 _G_ROUND = _v2p("^Verif(C05_saturated_round|C06_progress|C06_sole_priority)$", dict(n=[1, 2], Hmax=[3]), dict(n=[1, 2, 3], Hmax=[4]))
+_G_ROUND2 = _v2p("^VerifC06_progress_two_rounds$", dict(n=[2, 3], Hmax=[3]), dict(n=[2, 3, 4], Hmax=[4]))
 _G_RUN = _v2p("^VerifC02_run$", dict(n=[1, 2], H=[1, 2], J=[1]), dict(n=[1, 2], H=[1, 2, 3], J=[2]), maxpaths=400000)
 _G_SIMPLE = dict(mod="v2", pkg="priority/simple", overlay="harness/v2/simple", harness="^VerifC01_simple_handler$",
                  params=dict(quick=dict(H=[1, 2], K=[3]), thorough=dict(H=[1, 2, 3], K=[4])))
@@ -195,7 +196,7 @@ _prio("C05", "Saturation: from any state with actual[p] <= strategic[p] (shares 
 _prio("C06", "Progress, reduced to solver-decidable obligations plus the ranking argument of DESIGN 7 C06: (P0) constructor guarantees every share >= 1 and shares sum to H; (P1) the discipline blocks on feedback only while "
       "something is in flight (loop/main/run harnesses); (P2) nothing in flight + data somewhere => an item is delivered in one round without a release; (P3) a round proceeds only if every uncrowded priority got >= 1; "
       "(P4) a sole active priority reaches H in one round.",
-      [_G_ROUND, _G_NEW, _G_LOOP1, _G_RUN, _v2p("^VerifC01_step_calcTactic$", dict(n=[1, 2, 3]), dict(n=[1, 2, 3, 4]))])
+      [_G_ROUND, _G_ROUND2, _G_NEW, _G_LOOP1, _G_RUN, _v2p("^VerifC01_step_calcTactic$", dict(n=[1, 2, 3]), dict(n=[1, 2, 3, 4]))])
 _prio("C07", "Termination exactly when drained and released: real loop()/main() from arbitrary between-rounds states with every input open / closed-with-backlog / drained: output and err are closed only with nothing in flight "
       "and (normal mode) all inputs closed, empty and marked drained; Drained is set only on an observed close; promptness (returns after exactly g releases, no idle sleep); no error value in normal mode.",
       [_G_LOOP1, _G_PROMPT, _v2p("^VerifC01_step_io$", dict(n=[1, 2, 3], J=[2]), dict(n=[1, 2, 3, 4], J=[3])), _G_RUN, _G_SIMPLE])
@@ -209,7 +210,8 @@ _prio("C15", "Divider contract and fail-safe faults: the stub divider ASSERTS it
 def _v1p(harness, q, t, **kw):
     return dict(mod="v1", pkg="priority", overlay="harness/v1/priority", harness=harness, params=dict(quick=q, thorough=t), **kw)
 
-_SC16 = [dict(msg="^C16: after Stop/cancel", file="replay/v1/priority/c16_scenario_test.go", test="TestVerifScenarioC16Stop")]
+_SC16 = [dict(msg="^C16: after Stop/cancel", file="replay/v1/priority/c16_scenario_test.go", test="TestVerifScenarioC16Stop"),
+         dict(msg="^C16: after Stop/cancel", file="replay/v1/priority/c16_scenario_test.go", test="TestVerifScenarioC16CancelOnly")]
 
 PROPS["C16"] = dict(
     level="model_checking",
@@ -242,9 +244,9 @@ _V1_C17 = [_v1p("^VerifC17_step_", dict(n=[1, 2, 3]), dict(n=[1, 2, 3, 4])),
            _v1p("^VerifC17_loop_commands$", dict(n=[1], C=[2], J=[1], B=[1], K=[1]), dict(n=[1, 2], C=[2], J=[1], B=[1], K=[1]), maxtime=dict(quick=0, thorough=900))]
 
 PROPS["C01"]["groups"] += [_V1_STEP, _V1_PRIOR, _V1_MAIN, _V1_NEW, _V1_SIMPLE] + _V1_C17
-PROPS["C02"]["groups"] += [_V1_STEP, _V1_PRIOR, _V1_MAIN, _V1_SIMPLE]
+PROPS["C02"]["groups"] += [_V1_STEP, _V1_PRIOR, _V1_MAIN, _V1_SIMPLE] + _V1_C17
 PROPS["C05"]["groups"] += [_V1_ROUND, _V1_NEW]
-PROPS["C06"]["groups"] += [_V1_ROUND, _V1_MAIN, _V1_Z6, _v1p("^VerifC01_step_calcTactic$", dict(n=[1, 2, 3]), dict(n=[1, 2, 3, 4]))]
+PROPS["C06"]["groups"] += [_V1_ROUND, _v1p("^VerifC06_progress_two_rounds$", dict(n=[2, 3], Hmax=[3]), dict(n=[2, 3, 4], Hmax=[4])), _V1_MAIN, _V1_Z6, _v1p("^VerifC01_step_calcTactic$", dict(n=[1, 2, 3]), dict(n=[1, 2, 3, 4]))]
 PROPS["C07"]["groups"] += [_V1_MAIN, _V1_PROMPT, _V1_Z7, _V1_SIMPLE, _v1p("^VerifC01_step_io$", dict(n=[1, 2, 3], J=[2]), dict(n=[1, 2, 3, 4], J=[3]))]
 PROPS["C15"]["groups"] += [_V1_STEP, _V1_MAIN, _V1_NEW]
 PROPS["C16"]["groups"] += [_V1_SIMPLE]
